@@ -23,6 +23,7 @@ package dependency // import "pault.ag/go/debian/dependency"
 import (
 	"errors"
 	"fmt"
+	"strings"
 )
 
 // Parse a string into a Dependency object. The input should look something
@@ -166,7 +167,7 @@ func parsePossibility(input *input, relation *Relation) error {
 				return err
 			}
 			continue
-		case ' ', '(':
+		case ' ', '\t', '\r', '\n', '(', '[', '<':
 			err := parsePossibilityControllers(input, ret)
 			if err != nil {
 				return err
@@ -216,7 +217,7 @@ func parseMultiarch(input *input, possi *Possibility) error {
 	for {
 		peek := input.Peek()
 		switch peek {
-		case ',', '|', 0, ' ', '(', '[', '<':
+		case ',', '|', 0, ' ', '\t', '\r', '\n', '(', '[', '<':
 			arch, err := ParseArch(name)
 			if err != nil {
 				return err
@@ -338,6 +339,8 @@ func parsePossibilityNumber(input *input, version *VersionRelation) error {
 		case 0:
 			return errors.New("Oh no. Reached EOF before Number finished")
 		case ')':
+			/* whitespace may precede the closing paren */
+			version.Number = strings.TrimRight(version.Number, " \t\r\n")
 			return nil
 		}
 		version.Number += string(input.Next())
@@ -350,6 +353,7 @@ func parsePossibilityArchs(input *input, possi *Possibility) error {
 	input.Next() /* Assert ch == '[' */
 
 	for {
+		eatWhitespace(input) /* whitespace may precede the closing bracket */
 		peek := input.Peek()
 		switch peek {
 		case 0:
@@ -391,7 +395,7 @@ func parsePossibilityArch(input *input, possi *Possibility) error {
 			return errors.New("Oh no. Reached EOF before Arch list finished")
 		case '!':
 			return errors.New("You can only negate whole blocks :(")
-		case ']', ' ': /* Let our parent deal with both of these */
+		case ']', ' ', '\t', '\r', '\n': /* Let our parent deal with these */
 			archObj, err := ParseArch(arch)
 			if err != nil {
 				return err
@@ -413,6 +417,7 @@ func parsePossibilityStageSet(input *input, possi *Possibility) error {
 
 	stageSet := StageSet{}
 	for {
+		eatWhitespace(input) /* whitespace may precede the closing angle */
 		peek := input.Peek()
 		switch peek {
 		case 0:
@@ -446,7 +451,7 @@ func parsePossibilityStage(input *input, stageSet *StageSet) error {
 				return errors.New("Double-negation (!!) of a single Stage is not permitted :(")
 			}
 			stage.Not = !stage.Not
-		case '>', ' ': /* Let our parent deal with both of these */
+		case '>', ' ', '\t', '\r', '\n': /* Let our parent deal with these */
 			stageSet.Stages = append(stageSet.Stages, stage)
 			return nil
 		}
